@@ -122,6 +122,45 @@ func (d *Document) ValueContainsVariable(value Value) bool {
 	}
 }
 
+// numberLiteralIsJSON reports whether an (unsigned) number literal can be copied into JSON as is:
+// IntegerPart ('.' Digit+)? ([eE] [+-]? Digit+)? with IntegerPart = '0' | NonZeroDigit Digit*.
+// The lexer is lenient (it also scans `007`, `1.`, `1e`, `1.5e+` as numbers); such a literal is not a
+// number of the GraphQL grammar either and must not end up in the variables JSON.
+func numberLiteralIsJSON(b []byte) bool {
+	n := len(b)
+	i := 0
+	for i < n && b[i] >= '0' && b[i] <= '9' {
+		i++
+	}
+	if i == 0 || (i > 1 && b[0] == '0') {
+		return false
+	}
+	if i < n && b[i] == '.' {
+		i++
+		fraction := i
+		for i < n && b[i] >= '0' && b[i] <= '9' {
+			i++
+		}
+		if i == fraction {
+			return false
+		}
+	}
+	if i < n && (b[i] == 'e' || b[i] == 'E') {
+		i++
+		if i < n && (b[i] == '+' || b[i] == '-') {
+			i++
+		}
+		exponent := i
+		for i < n && b[i] >= '0' && b[i] <= '9' {
+			i++
+		}
+		if i == exponent {
+			return false
+		}
+	}
+	return i == n
+}
+
 func (d *Document) writeJSONValue(buf *bytes.Buffer, value Value) error {
 	switch value.Kind {
 	case ValueKindNull:
@@ -130,12 +169,18 @@ func (d *Document) writeJSONValue(buf *bytes.Buffer, value Value) error {
 		buf.Write(quotes.WrapBytes(d.EnumValueNameBytes(value.Ref)))
 	case ValueKindInteger:
 		intValueBytes := d.IntValueRaw(value.Ref)
+		if !numberLiteralIsJSON(intValueBytes) {
+			return fmt.Errorf("ValueToJSON: malformed number literal: %s", intValueBytes)
+		}
 		if d.IntValueIsNegative(value.Ref) {
 			buf.WriteByte(literal.SUB_BYTE)
 		}
 		buf.Write(intValueBytes)
 	case ValueKindFloat:
 		floatValueBytes := d.FloatValueRaw(value.Ref)
+		if !numberLiteralIsJSON(floatValueBytes) {
+			return fmt.Errorf("ValueToJSON: malformed number literal: %s", floatValueBytes)
+		}
 		if d.FloatValueIsNegative(value.Ref) {
 			buf.WriteByte(literal.SUB_BYTE)
 		}
